@@ -1,6 +1,8 @@
 package l1
 
 import (
+	"sync/atomic"
+	"errors"
 	"bytes"
 	"context"
 	"encoding/json"
@@ -21,6 +23,7 @@ import (
 	"google.golang.org/protobuf/types/known/durationpb"
 
 	"github.com/nuetzliches/hookaido/internal/app"
+	"github.com/nuetzliches/hookaido/internal/queue"
 	workerapipb "github.com/nuetzliches/hookaido/internal/workerapi/proto"
 	"github.com/nuetzliches/hookaido/verif/l0"
 )
@@ -65,6 +68,54 @@ func grpcStatus(err error) int {
 	return 500
 }
 
+// faultStore fails the next single-lease mutation once with a transient (non lease-conflict) error when armed, without
+// touching the inner store: a busy database, an I/O error.  Everything else is delegated, including the optional batch
+// interfaces the API looks for.
+type faultStore struct {
+	queue.Store
+	armed atomic.Bool
+}
+
+var errTransient = errors.New("verif: transient store error (database is busy)")
+
+func (f *faultStore) trip() bool { return f.armed.CompareAndSwap(true, false) }
+func (f *faultStore) Ack(id string) error {
+	if f.trip() {
+		return errTransient
+	}
+	return f.Store.Ack(id)
+}
+func (f *faultStore) Nack(id string, d time.Duration) error {
+	if f.trip() {
+		return errTransient
+	}
+	return f.Store.Nack(id, d)
+}
+func (f *faultStore) MarkDead(id, reason string) error {
+	if f.trip() {
+		return errTransient
+	}
+	return f.Store.MarkDead(id, reason)
+}
+func (f *faultStore) Extend(id string, d time.Duration) error {
+	if f.trip() {
+		return errTransient
+	}
+	return f.Store.Extend(id, d)
+}
+func (f *faultStore) AckBatch(ids []string) (queue.LeaseBatchResult, error) {
+	return f.Store.(queue.LeaseBatchStore).AckBatch(ids)
+}
+func (f *faultStore) NackBatch(ids []string, d time.Duration) (queue.LeaseBatchResult, error) {
+	return f.Store.(queue.LeaseBatchStore).NackBatch(ids, d)
+}
+func (f *faultStore) MarkDeadBatch(ids []string, reason string) (queue.LeaseBatchResult, error) {
+	return f.Store.(queue.LeaseBatchStore).MarkDeadBatch(ids, reason)
+}
+func (f *faultStore) EnqueueBatch(items []queue.Envelope) (int, error) {
+	return f.Store.(queue.BatchEnqueuer).EnqueueBatch(items)
+}
+
 // RunPull executes a store-level schedule (l0.Op vocabulary) THROUGH the pull API of a production-wired instance:
 // Enqueue / MutateIds / Tick act on the store directly (seeding, operator steps, clock), Dequeue / LeaseOp / LeaseBatch
 // become HTTP or gRPC calls.
@@ -86,7 +137,8 @@ func RunPull(w io.Writer, scratch, name string, o PullOpts, ops []l0.Op, seed in
 		return 0, err
 	}
 	defer closeFn()
-	inst, err := app.VerifBoot(app.VerifOptions{ConfigPath: cfgPath, DBPath: filepath.Join(dir, "unused.db"), Store: store})
+	fs := &faultStore{Store: store}
+	inst, err := app.VerifBoot(app.VerifOptions{ConfigPath: cfgPath, DBPath: filepath.Join(dir, "unused.db"), Store: fs})
 	if err != nil {
 		return 0, fmt.Errorf("boot: %w\n%s", err, pullConfig(o))
 	}
@@ -142,7 +194,9 @@ func RunPull(w io.Writer, scratch, name string, o PullOpts, ops []l0.Op, seed in
 		}
 		return out
 	}
-	for _, op := range ops {
+	retrying := false
+	for i := 0; i < len(ops); i++ {
+		op := ops[i]
 		useGRPC := next(100) < o.GRPCPct
 		transport := "http"
 		if useGRPC {
@@ -253,6 +307,11 @@ func RunPull(w io.Writer, scratch, name string, o PullOpts, ops []l0.Op, seed in
 				}
 			}
 			bad := len(lids) == 0 || (single && strings.TrimSpace(raws[0]) == "")
+			// now and then the store fails a single-lease mutation once with a transient error; the consumer then retries
+			// the very same request (the step is executed again, without a fault)
+			inject := single && !bad && !retrying && next(100) < 12
+			retrying = false
+			fs.armed.Store(inject)
 			var statusCode, okCount int
 			nf, ex := []any{}, []any{}
 			endpoint := "/pull/a"
@@ -351,7 +410,14 @@ func RunPull(w io.Writer, scratch, name string, o PullOpts, ops []l0.Op, seed in
 					}
 				}
 			}
-			if bad || (kind == "extend" && useGRPC && op.Arg <= 0 && false) {
+			tripped := inject && !fs.armed.Load()
+			fs.armed.Store(false)
+			if tripped {
+				ev = l0.Event{"ev": "PullFault", "a": map[string]any{"kind": kind, "single": single, "lids": []any{lids[0]}, "transport": transport, "raws": raws},
+					"r": map[string]any{"status": statusCode}}
+				retrying = true
+				i--
+			} else if bad || (kind == "extend" && useGRPC && op.Arg <= 0 && false) {
 				ev = l0.Event{"ev": "PullBad", "a": map[string]any{"kind": kind, "raws": raws, "transport": transport}, "r": map[string]any{"status": statusCode}}
 			} else {
 				lidsAny := make([]any, 0, len(lids))
